@@ -207,9 +207,9 @@ int x509_validity_print(FILE *fp, int fmt, int ind, const char *label, const uin
 	ind += 4;
 
 	if (x509_time_from_der(&tv, &d, &dlen) != 1) goto err;
-	format_print(fp, fmt, ind, "notBefore: %s", ctime(&tv));
+	format_time(fp, fmt, ind, "notBefore", tv);
 	if (x509_time_from_der(&tv, &d, &dlen) != 1) goto err;
-	format_print(fp, fmt, ind, "notAfter: %s", ctime(&tv));
+	format_time(fp, fmt, ind, "notAfter", tv);
 	if (asn1_length_is_zero(dlen) != 1) goto err;
 	return 1;
 err:
